@@ -366,8 +366,76 @@ def rule_blakegen(ctx, R, F):
     with astq.renaming(ren):
         body = [showv(s) for s in c['body']['s']]
         inits = [(i.get('member'), showv(i['e'])) for i in c.get('inits', []) if i.get('written')]
-    exp = ['memset(this->data, 0, 64)', 'memcpy(this->data, P0, ((P1 > 60) ? 60 : P1))', 'store32(&this->data[60], P2)']
-    R.eq('constructor', '%s:%d' % (c['file'], c['line']), exp, body)
+    import slice as _slc0
+
+    class _CH:
+        """memory model of the 64-byte state while the constructor runs: byte -> ('zero',) / ('seed', k) / ('nonce', k)"""
+        DATA, SEED = 0x5000, 0x9000
+
+        def __init__(self):
+            self.mem = {}
+            self.bad = []
+
+        def leaf(self, n, env, sl):
+            n0 = strip_all(n)
+            s_ = show(n0)
+            if n0['k'] == 'Un' and n0.get('op') == '&':
+                e_ = strip_all(n0['e'])
+                if e_['k'] == 'Idx' and (show(e_['b']).endswith('->data') or show(e_['b']).endswith('.data')):
+                    i_ = sl.ev(e_['i'], env)
+                    return None if i_ is None else self.DATA + i_
+            if s_.endswith('->data') or s_.endswith('.data'):
+                return self.DATA
+            return None
+
+        def store(self, n, env, sl):
+            l = strip_all(n['l'])
+            if l['k'] == 'Idx' and (show(l['b']).endswith('->data') or show(l['b']).endswith('.data')):
+                i_ = sl.ev(l['i'], env)
+                if i_ is None or not 0 <= i_ < 64:
+                    self.bad.append('store to data[%s]' % i_)
+                else:
+                    self.mem[i_] = ('other',)
+
+        def call(self, n, args, env, sl):
+            nm = n.get('name') or ''
+            if nm == 'memset' and None not in args[:3]:
+                for k_ in range(args[2]):
+                    a_ = args[0] + k_ - self.DATA
+                    if 0 <= a_ < 64:
+                        self.mem[a_] = ('zero',) if args[1] == 0 else ('fill', args[1])
+                    else:
+                        self.bad.append('memset outside the state')
+            elif nm == 'memcpy' and None not in args[:3]:
+                for k_ in range(args[2]):
+                    a_ = args[0] + k_ - self.DATA
+                    if 0 <= a_ < 64:
+                        self.mem[a_] = ('seed', args[1] + k_ - self.SEED)
+                    else:
+                        self.bad.append('memcpy outside the state')
+            elif nm == 'store32' and args and args[0] is not None:
+                for k_ in range(4):
+                    a_ = args[0] + k_ - self.DATA
+                    if 0 <= a_ < 64:
+                        self.mem[a_] = ('nonce', k_)
+                    else:
+                        self.bad.append('store32 outside the state')
+            return None
+    badc = None
+    for n_ in (0, 1, 31, 59, 60, 61, 64, 200):
+        hc = _CH()
+        slc_ = _slc0.Slice(F, hc, {}, limit=5000, what='SPEC-BLAKEGEN')
+        try:
+            slc_.run(c['body'], {c['params'][0]['id']: hc.SEED, c['params'][1]['id']: n_, c['params'][2]['id']: 0x77})
+        except _slc0.NeedChoice as e_:
+            raise AnalysisBroken('SPEC-BLAKEGEN: the constructor branches on %s' % e_.key)
+        want_ = {}
+        for k_ in range(64):
+            want_[k_] = ('seed', k_) if k_ < min(n_, 60) else (('nonce', k_ - 60) if k_ >= 60 else ('zero',))
+        if (hc.mem != want_ or hc.bad) and badc is None:
+            diff_ = [k_ for k_ in range(64) if hc.mem.get(k_) != want_[k_]]
+            badc = 'seed size %d: %s' % (n_, hc.bad[:1] or ['byte %d is %s, expected %s' % (diff_[0], hc.mem.get(diff_[0]), want_[diff_[0]])])
+    R.check(badc is None, 'constructor', '%s:%d' % (c['file'], c['line']), expected='state = seed[0 .. min(size, 60)) || zeros || nonce (little endian) at 60..63, for seed sizes 0 .. 200', found=badc or 'as specified')
     R.eq('dataIndex starts exhausted', '%s:%d' % (c['file'], c['line']), [('dataIndex', '64')], inits)
     rec = F.record('randomx::Blake2Generator')
     R.eq('state size', '%s:%d' % (rec['file'], rec['line']), [('data', 64)], [(fl['name'], fl.get('arrlen')) for fl in rec['fields'] if fl['name'] == 'data'])
@@ -414,10 +482,62 @@ def rule_blakegen(ctx, R, F):
                 badr = (idx, need, len(h_.refills), h_.idx, h_.refills[:1])
     R.check(badr is None, 'refill rule', '%s:%d' % (ck['file'], ck['line']), expected='data = Hash512(data) and dataIndex = 0 exactly when dataIndex + n > 64 (every dataIndex 0..64, n in {1, 4, 8})',
             found='dataIndex %d, n %d: %d refill(s), dataIndex afterwards %s %s' % badr if badr else 'as specified')
-    gb = F.func('randomx::Blake2Generator::getByte')
-    R.eq('getByte', '%s:%d' % (gb['file'], gb['line']), ['this.checkData(1)', 'return this->data[this->dataIndex++]'], [showv(s) for s in gb['body']['s']])
-    gu = F.func('randomx::Blake2Generator::getUInt32')
-    R.eq('getUInt32', '%s:%d' % (gu['file'], gu['line']), ['this.checkData(4)', 'unsigned int ret = load32(&this->data[this->dataIndex])', '(this->dataIndex += 4)', 'return ret'], [showv(s) for s in gu['body']['s']])
+    class _AH(_H):
+        """accessors: which state bytes are returned and where the index ends up"""
+
+        def leaf(self, n, env, sl):
+            n0 = strip_all(n)
+            if n0['k'] == 'Idx' and (show(n0['b']).endswith('->data') or show(n0['b']).endswith('.data')):
+                i_ = self.index_of(n0['i'], env, sl)
+                return None if i_ is None else 0x100000 + i_        # "the byte at i"
+            if n0['k'] == 'Un' and n0.get('op') == '&':
+                e_ = strip_all(n0['e'])
+                if e_['k'] == 'Idx' and (show(e_['b']).endswith('->data') or show(e_['b']).endswith('.data')):
+                    i_ = self.index_of(e_['i'], env, sl)
+                    return None if i_ is None else 0x5000 + i_
+            return _H.leaf(self, n, env, sl)
+
+        def index_of(self, i, env, sl):
+            i0 = strip_all(i)
+            if i0['k'] == 'Un' and '++' in i0.get('op', '') and show(strip_all(i0['e'])).endswith('dataIndex'):
+                v = self.idx
+                if v is not None:
+                    self.idx = v + 1
+                return v if i0.get('post') else self.idx
+            return sl.ev(i, env)
+
+        def store(self, n, env, sl):
+            if n['k'] == 'CAssign' and show(strip_all(n['l'])).endswith('dataIndex'):
+                v = sl.ev(n['r'], env)
+                op = n['op'][:-1]
+                self.idx = None if (v is None or self.idx is None or op not in '+-') else (self.idx + v if op == '+' else self.idx - v)
+                return
+            _H.store(self, n, env, sl)
+
+        def call(self, n, args, env, sl):
+            nm = n.get('name') or ''
+            if nm == 'checkData':
+                return ('inline', ck)
+            if nm == 'load32' and args and args[0] is not None:
+                return ('value', 0x200000 + (args[0] - 0x5000))         # "the little-endian word at i"
+            return _H.call(self, n, args, env, sl)
+
+    for fname, width, tag in (('getByte', 1, 0x100000), ('getUInt32', 4, 0x200000)):
+        gf = F.func('randomx::Blake2Generator::' + fname)
+        bada = None
+        for idx in range(0, 65):
+            h_ = _AH(idx)
+            sl_ = _slc.Slice(F, h_, {}, limit=2000, what='SPEC-BLAKEGEN')
+            try:
+                ret = sl_.run(gf['body'], {})
+            except _slc.NeedChoice as e_:
+                raise AnalysisBroken('SPEC-BLAKEGEN: %s depends on %s' % (fname, e_.key))
+            start = idx if idx + width <= 64 else 0
+            rv = ret[1] if ret is not None and ret[0] == 'ret' else None
+            ok_ = rv == tag + start and h_.idx == start + width and len(h_.refills) == (0 if idx + width <= 64 else 1)
+            if not ok_ and bada is None:
+                bada = 'dataIndex %d: returns %s, dataIndex afterwards %s, %d refill(s)' % (idx, ('state bytes at %d' % (rv - tag)) if isinstance(rv, int) and rv >= tag else rv, h_.idx, len(h_.refills))
+        R.check(bada is None, fname, '%s:%d' % (gf['file'], gf['line']), expected='returns the %d state byte(s) at the current index (after a refill when fewer than %d remain: index 0) and advances the index by %d' % (width, width, width), found=bada or 'as specified')
     ic = F.func('randomx::initCache')
     cons = [x for x in walk(ic['body']) if x['k'] == 'Construct' and 'Blake2Generator' in (x.get('ctor') or '')]
     with astq.renaming({p['id']: 'P%d' % i for i, p in enumerate(ic['params'])}):
